@@ -91,7 +91,7 @@ theorem filter_iff_handled (iface member : Option (List Char)) :
 
 /-- A handled call is answered exactly once, by a method return to its caller with its serial. -/
 theorem handled_call_answered_exactly_once (m : Incoming) (cell : Option (List Char))
-    (hi : m.iface = some peerIface) (hm : m.member = some pingM ∨ m.member = some getIdM) (hw : m.wrote = true) :
+    (hc : m.isCall = true) (hi : m.iface = some peerIface) (hm : m.member = some pingM ∨ m.member = some getIdM) (hw : m.wrote = true) :
     ∃ r cell', handlePeerMessage m cell = (.ok true, [r], cell') ∧
       r.hdr.replySerial = m.call.serial ∧ r.hdr.destination = m.call.sender ∧ r.hdr.isError = false ∧
       r.hdr.errorName = none ∧ r.hdr.serial = none ∧
@@ -103,23 +103,26 @@ theorem handled_call_answered_exactly_once (m : Incoming) (cell : Option (List C
   rcases hm with hm | hm
   · have hp : handlePeer m.iface m.member = .replied false := ((peer_logic _ _).1).2 ⟨hi, hm⟩
     refine ⟨{ hdr := makeResponse m.call, body := none }, cell, ?_, rfl, rfl, rfl, rfl, rfl, fun _ => ⟨rfl, rfl⟩, ?_⟩
-    · simp only [handlePeerMessage, hp, hw, if_true]
+    · simp [handlePeerMessage, handleCall, hp, hw, hc]
     · intro h2; rw [hm] at h2; exact absurd (Option.some.inj h2) hne
   · have hp : handlePeer m.iface m.member = .replied true := ((peer_logic _ _).2.1).2 ⟨hi, hm⟩
-    have hc : (getMachineId cell m.r1 m.r2 m.secs).2 = some (getMachineId cell m.r1 m.r2 m.secs).1 := by
+    have hcell : (getMachineId cell m.r1 m.r2 m.secs).2 = some (getMachineId cell m.r1 m.r2 m.secs).1 := by
       cases cell <;> simp [getMachineId]
     refine ⟨{ hdr := makeResponse m.call, body := some (getMachineId cell m.r1 m.r2 m.secs).1 },
       some (getMachineId cell m.r1 m.r2 m.secs).1, ?_, rfl, rfl, rfl, rfl, rfl, ?_, fun _ => ⟨rfl, rfl⟩⟩
-    · simp only [handlePeerMessage, hp, hw, if_true, hc]
+    · simp [handlePeerMessage, handleCall, hp, hw, hc, hcell]
     · intro h2; rw [hm] at h2; exact absurd (Option.some.inj h2) hne'
 
-/-- Every other message - interface absent or different, member absent or different - is reported as not handled, nothing
-    is written and the id file is not touched, whether or not the connection would have taken a reply. -/
+/-- Every other message - not a method call (a signal, a return, an error that names the Peer interface), interface absent
+    or different, member absent or different - is reported as not handled, nothing is written and the id file is not
+    touched, whether or not the connection would have taken a reply. -/
 theorem other_message_not_answered (m : Incoming) (cell : Option (List Char))
-    (h : ¬ (m.iface = some peerIface ∧ (m.member = some pingM ∨ m.member = some getIdM))) :
+    (h : ¬ (m.isCall = true ∧ m.iface = some peerIface ∧ (m.member = some pingM ∨ m.member = some getIdM))) :
     handlePeerMessage m cell = (.ok false, [], cell) := by
-  have hp : handlePeer m.iface m.member = .notHandled := ((peer_logic _ _).2.2).2 h
-  simp [handlePeerMessage, hp]
+  by_cases hc : m.isCall = true
+  · have hp : handlePeer m.iface m.member = .notHandled := ((peer_logic _ _).2.2).2 (fun hh => h ⟨hc, hh⟩)
+    simp [handlePeerMessage, handleCall, hp, hc]
+  · simp [handlePeerMessage, hc]
 
 /-- Never more than one message per call, never an error message, and nothing at all when the send was refused. -/
 theorem at_most_one_reply (m : Incoming) (cell : Option (List Char)) :
@@ -127,8 +130,8 @@ theorem at_most_one_reply (m : Incoming) (cell : Option (List Char)) :
     (∀ r ∈ (handlePeerMessage m cell).2.1, r.hdr = makeResponse m.call) ∧
     (m.wrote = false → (handlePeerMessage m cell).2.1 = []) ∧
     ((handlePeerMessage m cell).1 = .ok true ↔ (handlePeerMessage m cell).2.1.length = 1) := by
-  unfold handlePeerMessage
-  cases handlePeer m.iface m.member with
+  unfold handlePeerMessage handleCall
+  cases m.isCall <;> cases handlePeer m.iface m.member with
   | notHandled => simp
   | replied b =>
     cases b <;> cases m.wrote <;> simp
@@ -146,13 +149,13 @@ theorem served_ids_stable_stored (s : List Char) (ms : List Incoming) :
   | cons m ms ih =>
     intro id h
     have hcell : (handlePeerMessage m (some s)).2.2 = some s := by
-      unfold handlePeerMessage
-      cases handlePeer m.iface m.member with
-      | notHandled => rfl
+      unfold handlePeerMessage handleCall
+      cases m.isCall <;> cases handlePeer m.iface m.member with
+      | notHandled => simp
       | replied b => cases b <;> cases m.wrote <;> simp [getMachineId]
     have hbody : ∀ r ∈ (handlePeerMessage m (some s)).2.1, ∀ x ∈ r.body.toList, x = s := by
-      unfold handlePeerMessage
-      cases handlePeer m.iface m.member with
+      unfold handlePeerMessage handleCall
+      cases m.isCall <;> cases handlePeer m.iface m.member with
       | notHandled => simp
       | replied b => cases b <;> cases m.wrote <;> simp [getMachineId]
     cases hh : handlePeerMessage m (some s) with
@@ -178,45 +181,54 @@ theorem served_ids_stable_and_32hex (ms : List Incoming)
   | nil => exact ⟨formatMachineUuid 0 0 0, by simp [idsServed, serve], (machine_id_len 0 0 0 (by omega) (by omega) (by omega))⟩
   | cons m ms ih =>
     obtain ⟨hb1, hb2, hb3⟩ := hd m (by simp)
-    cases hp : handlePeer m.iface m.member with
-    | notHandled =>
-      obtain ⟨s, hs, hl⟩ := ih (fun m' hm' => hd m' (by simp [hm']))
-      refine ⟨s, ?_, hl⟩
-      intro id h
-      simp only [serve, handlePeerMessage, hp, idsServed, List.flatMap_cons, List.flatMap_nil, List.nil_append] at h
-      exact hs id h
-    | replied b =>
-      cases b with
-      | false =>
-        obtain ⟨s, hs, hl⟩ := ih (fun m' hm' => hd m' (by simp [hm']))
+    have ih' := ih (fun m' hm' => hd m' (by simp [hm']))
+    by_cases hc : m.isCall = true
+    · cases hp : handlePeer m.iface m.member with
+      | notHandled =>
+        obtain ⟨s, hs, hl⟩ := ih'
         refine ⟨s, ?_, hl⟩
         intro id h
-        cases hw : m.wrote <;>
-          simp [serve, handlePeerMessage, hp, hw, idsServed] at h <;> exact hs id (by simpa [idsServed] using h)
-      | true =>
-        refine ⟨formatMachineUuid m.r1 m.r2 m.secs, ?_, machine_id_len _ _ _ hb1 hb2 hb3⟩
-        intro id h
-        have hst := served_ids_stable_stored (formatMachineUuid m.r1 m.r2 m.secs) ms
-        cases hw : m.wrote <;>
-          simp [serve, handlePeerMessage, hp, hw, idsServed, getMachineId] at h
-        · exact hst id (by simpa [idsServed] using h)
-        · rcases h with h | h
-          · exact h
+        simp [serve, handlePeerMessage, handleCall, hc, hp, idsServed] at h
+        exact hs id (by simpa [idsServed] using h)
+      | replied b =>
+        cases b with
+        | false =>
+          obtain ⟨s, hs, hl⟩ := ih'
+          refine ⟨s, ?_, hl⟩
+          intro id h
+          cases hw : m.wrote <;>
+            simp [serve, handlePeerMessage, handleCall, hc, hp, hw, idsServed] at h <;>
+            exact hs id (by simpa [idsServed] using h)
+        | true =>
+          refine ⟨formatMachineUuid m.r1 m.r2 m.secs, ?_, machine_id_len _ _ _ hb1 hb2 hb3⟩
+          intro id h
+          have hst := served_ids_stable_stored (formatMachineUuid m.r1 m.r2 m.secs) ms
+          cases hw : m.wrote <;>
+            simp [serve, handlePeerMessage, handleCall, hc, hp, hw, idsServed, getMachineId] at h
           · exact hst id (by simpa [idsServed] using h)
-
+          · rcases h with h | h
+            · exact h
+            · exact hst id (by simpa [idsServed] using h)
+    · obtain ⟨s, hs, hl⟩ := ih'
+      refine ⟨s, ?_, hl⟩
+      intro id h
+      simp [serve, handlePeerMessage, hc, idsServed] at h
+      exact hs id (by simpa [idsServed] using h)
 
 -- non-vacuity: a serving history from an empty store - GetMachineId whose send is refused (the id is created all the
--- same), a foreign call, Ping, GetMachineId twice with other draws: both answers carry the id of the first draw
+-- same), a foreign call, Ping, GetMachineId twice with other draws, in between a SIGNAL named Ping on the Peer interface (not answered): both answers carry the id of the first draw
 def exCall (serial : Nat) : Hdr :=
   { serial := some serial, sender := some [':', '1', '.', '5'], destination := none, replySerial := none,
     errorName := none, isError := false }
 def exIn (serial : Nat) (member : Option (List Char)) (r1 : Nat) (wrote : Bool) : Incoming :=
-  { call := exCall serial, iface := some peerIface, member := member, r1 := r1, r2 := 1, secs := 2, wrote := wrote }
+  { isCall := true, call := exCall serial, iface := some peerIface, member := member, r1 := r1, r2 := 1, secs := 2, wrote := wrote }
 example : serve none [exIn 3 (some getIdM) 10 false, { exIn 4 (some pingM) 0 true with iface := none },
-      exIn 5 (some pingM) 0 true, exIn 6 (some getIdM) 11 true, exIn 7 (some getIdM) 12 true] =
+      exIn 5 (some pingM) 0 true, exIn 6 (some getIdM) 11 true, { exIn 8 (some pingM) 0 true with isCall := false },
+      exIn 7 (some getIdM) 12 true] =
     [(.sendErr, []), (.ok false, []),
      (.ok true, [{ hdr := makeResponse (exCall 5), body := none }]),
      (.ok true, [{ hdr := makeResponse (exCall 6), body := some (formatMachineUuid 10 1 2) }]),
+     (.ok false, []),
      (.ok true, [{ hdr := makeResponse (exCall 7), body := some (formatMachineUuid 10 1 2) }])] := by decide
 example : (makeResponse (exCall 6)).replySerial = some 6 ∧ (makeResponse (exCall 6)).destination = some [':', '1', '.', '5'] := by
   decide
